@@ -4,6 +4,9 @@ prefix shape; long strings around the 65,535-byte limit; UTF-8 boundary sequence
 import itertools
 
 ALPHA = [b'/', b'+', b'#', b'$', b'a', b'\x00', 'é'.encode(), '你'.encode(), '\U0001F600'.encode()]
+# characters whose code point, truncated to 8 bits, is '/', '#', '+' or NUL; the byte order mark; C0/C1 controls
+WIDE = [b'/', b'+', b'#', b'a', '\ufeff'.encode(), '\u012f'.encode(), '\u0123'.encode(), '\u012b'.encode(), '\u0100'.encode(),
+        '\u4e2b'.encode(), '\U0001F623'.encode(), b'\t', b'\x7f', '\u0085'.encode()]
 PREFIXES = [b'', b'$share/', b'$share/g/', '$share/你/'.encode(), b'$share', b'$shar/', b'$s/', b'$SYS/',
             b'$share//', b'$share/g', b'$Share/g/', b'x$share/g/']
 
